@@ -66,8 +66,8 @@ SEARCH_SCALE = 4
 
 def drivers():
     def args(tier, seed, scale):
-        n = (220 if tier == "quick" else 2500) * scale
-        routes = (650 if tier == "quick" else 4000) * scale
+        n = (180 if tier == "quick" else 2500) * scale
+        routes = (520 if tier == "quick" else 4000) * scale
         hostile = 4 if tier == "quick" else 12
         return ["-n", str(n), "-routes", str(routes), "-hostile", str(hostile), "-seed", str(seed)]
     return [{"driver": "httpdrive", "args": args, "replay_args": lambda tier: []}]
